@@ -156,6 +156,39 @@ def inst_term(defs, obs):
     return "(%s, Some (%s, %s, [%s]))" % (ds, d, C.coq_nat_list(finals), "; ".join(C.coq_nat_list(x) for x in tm))
 
 
+STR_V = """(* GENERATED: stringToDFA - the automaton of a string definition vs the model of Reg/StringDfa.v *)
+From Coq Require Import List Bool NArith.
+From Verif Require Import Base.CharSet Reg.Dfa Reg.StringDfa Reg.MaxMunch.
+Import ListNotations.
+Local Open Scope N_scope.
+Definition edge_eqb (a b : edge) : bool :=
+  (e_from a =? e_from b) && (e_lo a =? e_lo b) && (e_hi a =? e_hi b) && (e_to a =? e_to b).
+Fixpoint edges_eqb (a b : list edge) : bool :=
+  match a, b with [], [] => true | x :: a', y :: b' => edge_eqb x y && edges_eqb a' b' | _, _ => false end.
+Fixpoint ns_eqb (a b : list N) : bool :=
+  match a, b with [], [] => true | x :: a', y :: b' => (x =? y) && ns_eqb a' b' | _, _ => false end.
+Definition agrees (c : list N * (dfa * list N)) : bool :=
+  let '(v, (d, fin)) := c in
+  let m := string_dfa v in
+  (d_start (fst m) =? d_start d) && edges_eqb (d_edges (fst m)) (d_edges d) && ns_eqb (snd m) fin.
+Definition cases : list (list N * (dfa * list N)) := [
+%s
+].
+Definition M := Eval vm_compute in mismatches agrees 0 cases.
+Print M.
+"""
+
+
+def string_values(rng, tier):
+    """Values of string definitions as the scanner hands them over (the text between the quotes): plain, with escaped quotes and
+    backslashes, a backslash before an ordinary character, a trailing backslash, non-ASCII, repeated characters, the empty value."""
+    vals = ["", "a", "if", "aa", "==", "a\\\"b", "\\\\", "\\\\\\\\", "a\\", "\\a", "\\n", "x\\\"", "\\\"\\\"", "é", "→x", "\U0001F600!", "a b", "\t", "''", "/*", "a\\\\b\\\"c\\"]
+    alphabet = ["a", "b", "\\", "\"", "é", " "]
+    for _ in range(40 if tier == "quick" else 600):
+        vals.append("".join(rng.choice(alphabet) for _ in range(rng.randint(1, 8))))
+    return list(dict.fromkeys(vals))
+
+
 def check(tier):
     rep = C.Report(PROP, tier, "translation_validation")
     rng = C.rng_for(PROP)
@@ -167,9 +200,47 @@ def check(tier):
         return rep.finish()
     ok, log = C.coq_make(["theories/Props/C03.vo"])
     for t in ["scanner_is_exact_union_with_right_winner", "no_conflict_means_none_exists", "reported_conflict_is_real",
-              "string_literal_denotes_its_characters", "winner_examples"]:
+              "string_literal_denotes_its_characters", "automaton_of_a_string_definition_accepts_exactly_the_literal", "winner_examples"]:
         rep.obligation("Props/C03.v: " + t, ok)
     rep.cov["print_assumptions"] = "Closed under the global context x%d" % log.count("Closed under the global context") if ok else "n/a"
+
+    # ---- stringToDFA: the automaton of a string definition == the chain automaton of the model, edge for edge
+    svals = string_values(rng, tier)
+    sres = C.hook_map([{"op": "string_dfa", "value": C.codepoints(v)} for v in svals], timeout_each=10)
+    sterms, smeta = [], []
+    for v, r in zip(svals, sres):
+        d = r.get("dfa", {})
+        if r.get("outcome") != "ok" or "trans" not in d:
+            continue
+        sterms.append("(%s, ({| d_start := %d; d_edges := [%s] |}, [%s]))" % (
+            C.coq_nat_list(C.codepoints(v)), d["start"], "; ".join("(%d,%d,%d,%d)" % tuple(e) for e in d["trans"]), "; ".join(str(x) for x in d["finals"])))
+        smeta.append(v)
+    spath = os.path.join(C.GEN, "cases_C03s.v")
+    with open(spath, "w") as f:
+        f.write(STR_V % ";\n".join(sterms))
+    (sok, sout), = C.coqc_many([spath], 300)
+    sbad = C.parse_mismatches(sout) if sok else None
+    if sbad is None and not sok and not sout.strip():
+        rep.cov["string_definitions_undecided_slow"] = len(sterms)
+    elif sbad is None:
+        rep.obligation("string-definition cases compile", False)
+        rep.violation("cases", {"theorem": "gen/cases_C03s.v does not compile", "log": sout[-2500:]}, no_input=True)
+    else:
+        rep.obligation("stringToDFA: the automaton of a string definition is the model's chain automaton on %d values (of %d)" % (len(sterms), len(svals)),
+                       not sbad and len(sterms) == len(svals))
+        for i in sbad[:2]:
+            v = smeta[i]
+            un, k = [], 0
+            cps = C.codepoints(v)
+            while k < len(cps):
+                if cps[k] == 92 and k + 1 < len(cps):
+                    k += 1
+                un.append(cps[k])
+                k += 1
+            rep.failure("string-dfa", {"string-dfa"}, {"value": v, "value_codepoints": cps, "string_codepoints": un,
+                                                       "note": "the automaton built for this string definition is not the chain of its characters; "
+                                                               "the characters of the literal (escapes resolved) are the string to try"})
+    rep.cov["string_definitions"] = len(sterms)
 
     sets = [list(f) for f in FAMILIES]
     for _ in range(40 if tier == "quick" else 1500):
